@@ -11,10 +11,17 @@ Reply (stdout): JSON list, one record per program, in request order (see `_blank
 
 Replay one module:  impl_search.py --replay file.py [--no-compile]
 
-Isolation: guppylang is imported (and warmed up on one fixed tiny program) once in the parent; then
-*every* program runs in its own freshly forked child process, so the outcome of a program cannot
-depend on which other programs were run (DEF_STORE / ENGINE / tmp counters all start from the same
-parent snapshot).  Up to `workers` children run concurrently; results are re-assembled in order.
+Isolation: guppylang is imported (and warmed up on two fixed tiny programs) once in the parent.
+Forking one process per program is not affordable on the sandbox (page faults after fork() cost
+seconds), so `workers` persistent worker processes are forked from the warmed parent; worker w runs
+programs w, w+workers, ... and after *every* program restores guppylang's global state (DEF_STORE
+tables and sources, ENGINE caches and extensions, the experimental-features flag, sys.modules entries
+of program modules, recursion limit, excepthook) from a snapshot.  Every FAIL (and its shrunk form) is
+then re-run in a *fresh* process forked from the warmed parent; if the fresh run disagrees, the fresh
+result replaces the record (`confirmed: false`, `worker_view` keeps what the worker saw).
+Timeouts are user-CPU seconds (ITIMER_VIRTUAL), plus a generous wall-clock watchdog in the parent.
+Extra record keys: "frame" (innermost guppylang frame file:line:function), "sig" (failure class of
+FAIL records: [stage, exc_class, file:function, span-violation kind]), "confirmed".
 """
 import repo_shim  # noqa: F401  (must be first: selects the tree under test via VERIF_REPO)
 
@@ -237,6 +244,14 @@ def _classify_exception(rec, exc, stage, path, src, full_tb=False):
         rec["outcome"] = "rejected"
         return rec
     # not a GuppyError
+    if stage == "import" and type(exc).__name__ == "GuppyComptimeError":
+        # CPython evaluated a call of a guppy function while executing the module (e.g. a mutated
+        # annotation `-> f()` is evaluated at `def` time).  guppylang answers with its designed
+        # user-facing "may only be called in a Guppy context" exception; the compiler never saw
+        # the program, so this is not a compiler outcome.
+        rec["outcome"] = "discarded"
+        rec["fail_reason"] = f"{type(exc).__name__}: {_exc_msg(exc)}"
+        return rec
     if not any(_in_tree(fr.filename) for fr in frames) and not isinstance(exc, RecursionError):
         rec["outcome"] = "discarded"
         rec["fail_reason"] = f"{type(exc).__name__}: {_exc_msg(exc)}"
